@@ -11,22 +11,22 @@ let pair (c, v) = C07.str_qs c ^ " ; " ^ C07.str_qs v
 let q1 = function [x] -> C07.q_of_tok x | _ -> failwith "one rational expected"
 
 let () =
-  (* gk.band <p> <nc> <nq> | knots | pts | wts | mf | A | B | C | D | E
+  (* gk.band <p> <nc> <nq> | knots | pts | wts | mf per cell | A | B | C | D | E
      -> ok mass ; k2PhiPsi ; PhiPsi ; dPhidPsi ; dPhiPsi   (nb x nb, row-major) *)
   let asm f t = match split_on "|" t with
     | [[p; nc; nq]; kn; pts; wts; mf; a; b; c; d; e] ->
         let n = int_of_string nq in
-        C07.show mats (f (C07.qs kn) (C07.nat_tok p) (C07.nat_tok nc) (C07.nat_tok nq) (tab n pts) (C07.qs wts) (q1 mf)
+        C07.show mats (f (C07.qs kn) (C07.nat_tok p) (C07.nat_tok nc) (C07.nat_tok nq) (tab n pts) (C07.qs wts) (C07.qs mf)
                          (tab n a) (tab n b) (tab n c) (tab n d) (tab n e))
     | _ -> "?args" in
   register "gk.band" (asm gkq_band);
   register "gk.dense" (asm gkq_dense);
-  (* gk.solve <p> <nc> <nq> <m> | lN | uN | knots | pts | wts | mf | A | B | C | D | E | buf | rho | rs
+  (* gk.solve <p> <nc> <nq> <m> | lN | uN | knots | pts | wts | mf per cell | A | B | C | D | E | buf | rho | rs
      -> ok coefficients ; values at rs *)
   register "gk.solve" (fun t -> match split_on "|" t with
     | [[p; nc; nq; m]; ln; un; kn; pts; wts; mf; a; b; c; d; e; buf; rho; rs] ->
         let n = int_of_string nq in
-        C07.show pair (gkq_solve (C07.qs kn) (C07.nat_tok p) (C07.nat_tok nc) (C07.nat_tok nq) (tab n pts) (C07.qs wts) (q1 mf)
+        C07.show pair (gkq_solve (C07.qs kn) (C07.nat_tok p) (C07.nat_tok nc) (C07.nat_tok nq) (tab n pts) (C07.qs wts) (C07.qs mf)
                          (tab n a) (tab n b) (tab n c) (tab n d) (tab n e) (zs ln) (zs un) (z_of_int (int_of_string m))
                          (C07.qs buf) (C07.qs rho) (C07.qs rs))
     | _ -> "?args");
@@ -34,11 +34,11 @@ let () =
   register "gk.solvef" (fun t -> match split_on "|" t with
     | [[p; nc; nq; m]; ln; un; kn; pts; wts; mf; a; b; c; d; e; buf; rhot; rs] ->
         let n = int_of_string nq in
-        C07.show pair (gkq_solve_func (C07.qs kn) (C07.nat_tok p) (C07.nat_tok nc) (C07.nat_tok nq) (tab n pts) (C07.qs wts) (q1 mf)
+        C07.show pair (gkq_solve_func (C07.qs kn) (C07.nat_tok p) (C07.nat_tok nc) (C07.nat_tok nq) (tab n pts) (C07.qs wts) (C07.qs mf)
                          (tab n a) (tab n b) (tab n c) (tab n d) (tab n e) (zs ln) (zs un) (z_of_int (int_of_string m))
                          (C07.qs buf) (tab n rhot) (C07.qs rs))
     | _ -> "?args");
-  (* gk.case <p> <nc> <nq> | lN | uN | knots | pts | wts | mf | A | B | C | D | E | buf | rs | item | item ...
+  (* gk.case <p> <nc> <nq> | lN | uN | knots | pts | wts | mf per cell | A | B | C | D | E | buf | rs | item | item ...
      item = d <m> <coefficients of rho>   or   f <m> <rho at the points>
      -> ok mass ; k2PhiPsi ; PhiPsi ; dPhidPsi ; dPhiPsi ;; coeffs ; values ;; coeffs ; values ... *)
   register "gk.case" (fun t -> match split_on "|" t with
@@ -49,7 +49,7 @@ let () =
           | "f" :: m :: rhot -> (z_of_int (int_of_string m), Inr (tab n rhot))
           | _ -> failwith "work item") work in
         C07.show (fun (ms, sols) -> String.concat " ;; " (mats ms :: List.map pair sols))
-          (gkq_case (C07.qs kn) (C07.nat_tok p) (C07.nat_tok nc) (C07.nat_tok nq) (tab n pts) (C07.qs wts) (q1 mf)
+          (gkq_case (C07.qs kn) (C07.nat_tok p) (C07.nat_tok nc) (C07.nat_tok nq) (tab n pts) (C07.qs wts) (C07.qs mf)
              (tab n a) (tab n b) (tab n c) (tab n d) (tab n e) (zs ln) (zs un) (C07.qs buf) (C07.qs rs) w)
     | _ -> "?args");
   (* gk.linsolve <n> | A row-major | b *)
